@@ -23,7 +23,8 @@ from common import cstr, clist, cfloat, copt, cpair, cz
 
 THEOREMS = ['C15_tokens_of_appended_options', 'C15_keywords_prefix',
             'C15_keywords_later_wins', 'C15_like_chain_text',
-            'C15_like_equals_expanded', 'C15_like_imp_refuted']
+            'C15_like_equals_expanded', 'C15_like_imp_refuted',
+            'C15_like_mat_void_refuted']
 TRUSTED = [
     'hand-written model coq/C15/Model.v (modelled, tied by execution only)',
     'environment of the model, filled per deck from the repository\'s own '
